@@ -267,6 +267,24 @@ def m_eff(ctx, mod):
             fd = [s for s in body if isinstance(s, ast.If) and 'variant in' in unparse(s.test)]
             ok = len(fd) == 1 and unparse(fd[0].body[0]) == 'func = anp.cosh' and unparse(fd[0].orelse[0]) == 'func = anp.sinh' and unparse(fd[0].test) == "variant in ['periodic', 'cosh']"
             ctx.check('C15-D4', key0 + '#function-choice', ok, 'periodic/cosh -> cosh, sinh -> sinh', 'function choice differs')
+            # sinh has no solution at the two timeslices around T/2 of an even lattice: only those are filled with the predecessor.
+            # The fill condition is evaluated for T = 4..11, t = 0..T-1 (an odd lattice has no such timeslice: nothing is filled).
+            fills = [x for x in ast.walk(br['loop']) if isinstance(x, ast.If) and "variant == 'sinh'" in unparse(x.test) and any(isinstance(y, ast.Compare) and isinstance(y.ops[0], ast.In) for y in ast.walk(x.test))]
+            if len(fills) == 1:
+                mem = [y for y in ast.walk(fills[0].test) if isinstance(y, ast.Compare) and isinstance(y.ops[0], ast.In)][0]
+                wrong = []
+                try:
+                    for T_ in range(4, 12):
+                        class _S:
+                            T = T_
+                        for t_ in range(0, T_):
+                            got = bool(eval(compile(ast.Expression(body=mem), '<fill>', 'eval'), {'__builtins__': {}}, {'self': _S, unparse(mem.left): t_}))
+                            want_ = T_ % 2 == 0 and t_ in (T_ // 2, T_ // 2 - 1)
+                            if got != want_:
+                                wrong.append((T_, t_))
+                    ctx.check('C15-D4', key0 + '#sinh-fill', not wrong, 'only t = T/2 - 1, T/2 of an even lattice are filled', 'the fill condition `%s` is wrong for (T, t) = %s: defined effective masses are overwritten with the predecessor' % (unparse(mem), wrong[:4]), mod.loc(fills[0]))
+                except Exception as ex_:
+                    ctx.unrec('C15-D4', key0 + '#sinh-fill', 'cannot evaluate %s: %r' % (unparse(mem), ex_))
         # sign / zero tests use the same pair as the ratio
         vr = br['value_refs']
         ctx.check('C15-D4', key0 + '#value-tests', vr <= refs, 'value tests (zero / sign) only look at referenced timeslices %s' % sorted(vr), 'value tests look at %s, formula references %s' % (sorted(vr), sorted(refs)), mod.loc(br['loop']))
@@ -310,6 +328,7 @@ def run(ctx):
 
 
 SELFTEST = [
+    ('sinh-fill-integer-division', 'pyerrors/correlators.py', "t in [self.T / 2, self.T / 2 - 1]", "t in [self.T // 2, self.T // 2 - 1]", 'C15-D4'),
     ('fix-reverted-second-deriv', 'pyerrors/correlators.py', "                if (self.content[t - 1] is None) or (self.content[t] is None) or (self.content[t + 1] is None):\n                    newcontent.append(None)\n                else:\n                    newcontent.append((self.content[t + 1] - 2", "                if (self.content[t - 1] is None) or (self.content[t + 1] is None):\n                    newcontent.append(None)\n                else:\n                    newcontent.append((self.content[t + 1] - 2", 'C15-D1'),
     ('over-guarded', 'pyerrors/correlators.py', "                if (self.content[t - 1] is None) or (self.content[t + 1] is None):\n                    newcontent.append(None)\n                else:\n                    newcontent.append(0.5 * (", "                if (self.content[t - 1] is None) or (self.content[t] is None) or (self.content[t + 1] is None):\n                    newcontent.append(None)\n                else:\n                    newcontent.append(0.5 * (", 'C15-D1'),
     ('stencil-8-7', 'pyerrors/correlators.py', "(1 / 12) * (self.content[t - 2] - 8 * self.content[t - 1] + 8 * self.content[t + 1] - self.content[t + 2])", "(1 / 12) * (self.content[t - 2] - 7 * self.content[t - 1] + 7 * self.content[t + 1] - self.content[t + 2])", 'C15-D2'),
